@@ -1,0 +1,60 @@
+//! Verification hooks. Compiled only with `--cfg async_graphql_verif`; ordinary
+//! builds never see this module or any of its call sites.
+//!
+//! H1: thread-local work counters. Each request-checking walker calls
+//! [`count`] once per unit of work (one selection visited, one graph node
+//! expanded), so a harness can relate checking work to document size without
+//! a wall clock. An optional budget turns a runaway walk into a panic with a
+//! recognisable message, so that an exponential case costs a bounded amount.
+
+use std::cell::{Cell, RefCell};
+
+/// Every budget panic message starts with this text.
+pub const BUDGET_EXCEEDED: &str = "async_graphql_verif: work budget exceeded";
+
+thread_local! {
+    static COUNTERS: RefCell<Vec<(&'static str, u64)>> = const { RefCell::new(Vec::new()) };
+    static BUDGET: Cell<Option<u64>> = const { Cell::new(None) };
+}
+
+/// Add one unit of work to the counter of `site` on the current thread.
+///
+/// Panics (message starting with [`BUDGET_EXCEEDED`]) when a budget is set and
+/// this counter has just exceeded it.
+pub fn count(site: &'static str) {
+    let n = COUNTERS.with(|c| {
+        let mut c = c.borrow_mut();
+        match c.iter_mut().find(|(s, _)| *s == site) {
+            Some(entry) => {
+                entry.1 += 1;
+                entry.1
+            }
+            None => {
+                c.push((site, 1));
+                1
+            }
+        }
+    });
+    if let Some(budget) = BUDGET.with(Cell::get)
+        && n > budget
+    {
+        panic!("{BUDGET_EXCEEDED}: site={site} count={n} budget={budget}");
+    }
+}
+
+/// Forget all counters of the current thread (the budget is kept).
+pub fn reset() {
+    COUNTERS.with(|c| c.borrow_mut().clear());
+}
+
+/// The counters of the current thread, sorted by site name.
+pub fn snapshot() -> Vec<(&'static str, u64)> {
+    let mut v = COUNTERS.with(|c| c.borrow().clone());
+    v.sort();
+    v
+}
+
+/// Set (or clear) the per-counter budget of the current thread.
+pub fn set_budget(budget: Option<u64>) {
+    BUDGET.with(|b| b.set(budget));
+}
